@@ -31,9 +31,15 @@ STACK_DTYPES = ["uint8", "uint16", "float32", "float64"]
 # ---------------------------------------------------------------------------------------
 
 
+COLOR_SPACES = ["RGB", "BGR", "HSV"]  # the colour spaces OpticalImage accepts
+
+
 def _img_specs(series=(False, True, True)):
+    # extraction is indexing: the data type must not matter, so a few more than the two usual
+    # ones are drawn (payloads: see gens.payload_array; all compared exactly)
     return gens.image_specs(
-        dims=(2, 3), max_extent={2: 8, 3: 5}, dtypes=("float64", "uint8"),
+        dims=(2, 3), max_extent={2: 8, 3: 5},
+        dtypes=("float64", "float64", "uint8", "uint8", "float32", "bool"),
         series=series, max_nt=5, max_comp=3)
 
 
@@ -41,8 +47,31 @@ def _draw_cls(draw, spec):
     if spec["payload"] == "scalar":
         return draw(st.sampled_from(["Image", "ScalarImage"]))
     if spec["dim"] == 2 and spec["ncomp"] == 3:
-        return draw(st.sampled_from(["Image", "OpticalImage"]))
+        return draw(st.sampled_from(["Image", "OpticalImage", "OpticalImage"]))
     return "Image"
+
+
+def _draw_root_opts(draw, spec, cls):
+    """Constructor arguments of the root that the spec does not carry: the colour space of an
+    OpticalImage (RGB is the constructor's default, so only BGR / HSV show whether a child was
+    given the colour space of its parent) and a reference date chosen by the user (the default
+    reference date is the image's own first date, which a child re-derives identically from
+    its own dates whenever it starts at the first frame)."""
+    opts = {}
+    if cls == "OpticalImage":
+        opts["cspace"] = draw(st.sampled_from(COLOR_SPACES))
+    if spec["time"] in ("date", "both") and draw(st.booleans()):
+        # minutes between the reference date (experiment start) and BASE_DATE; the first frame
+        # is taken t0 <= 5 minutes after BASE_DATE: reference before, at or after the first frame
+        opts["refmin"] = draw(st.sampled_from([-3, 0, 1, 7, 60, 600, 43200]))
+    return opts
+
+
+def _root_extra(opts):
+    extra = {}
+    if opts and opts.get("refmin") is not None:
+        extra["reference_date"] = gens.BASE_DATE - _dt.timedelta(minutes=opts["refmin"])
+    return extra
 
 
 def _draw_slices(draw, shape, allow_beyond):
@@ -77,11 +106,23 @@ def _draw_box_points(draw, shape, dim):
         lo.append(a)
         hi.append(b)
     npts = draw(st.integers(dim, 4))
-    first = [draw(st.booleans()) for _ in shape]
-    pts = [[hi[i] if first[i] else lo[i] for i in range(len(shape))],
-           [lo[i] if first[i] else hi[i] for i in range(len(shape))]]
-    for _ in range(npts - 2):
-        pts.append([draw(st.integers(lo[i], hi[i])) for i in range(len(shape))])
+    if npts >= 3 and draw(st.booleans()):
+        # "points ... uniquely defining a box, i.e., at least space_dim points": the extremes of
+        # the box are spread over the points, no two of them need to be opposite corners.  Per
+        # axis one point carries the lower and another one the upper bound, the rest lie between.
+        pts = [[None] * len(shape) for _ in range(npts)]
+        for i in range(len(shape)):
+            who = draw(st.permutations(list(range(npts))))
+            pts[who[0]][i] = lo[i]
+            pts[who[1]][i] = hi[i]
+            for k in who[2:]:
+                pts[k][i] = draw(st.integers(lo[i], hi[i]))
+    else:
+        first = [draw(st.booleans()) for _ in shape]
+        pts = [[hi[i] if first[i] else lo[i] for i in range(len(shape))],
+               [lo[i] if first[i] else hi[i] for i in range(len(shape))]]
+        for _ in range(npts - 2):
+            pts.append([draw(st.integers(lo[i], hi[i])) for i in range(len(shape))])
     order = draw(st.permutations(list(range(npts))))
     pts = [pts[i] for i in order]
     inc = [max(a, 0) for a in lo]
@@ -176,7 +217,7 @@ def programs(draw):
         else:
             sl, nt = _draw_tsel(draw, nt)
             steps.append({"op": "tint", "sl": sl})
-    return {"img": spec, "cls": cls, "steps": steps}
+    return {"img": spec, "cls": cls, "steps": steps, "opts": _draw_root_opts(draw, spec, cls)}
 
 
 def gen_programs(tier):
@@ -196,7 +237,7 @@ def forms_cases(draw):
         shape = new
     pts, inc, new, outside = _draw_box_points(draw, shape, dim)
     return {"img": spec, "cls": cls, "pre": pre, "pts": pts,
-            "frac": _draw_fracs(draw, len(pts), dim)}
+            "frac": _draw_fracs(draw, len(pts), dim), "opts": _draw_root_opts(draw, spec, cls)}
 
 
 def gen_forms(tier):
@@ -224,6 +265,11 @@ def stack_cases(draw):
         "split": draw(st.integers(1, n - 1)),
     }
     case["tint"], _ = _draw_tsel(draw, n)
+    # a series appended to a series (or to a single image) with an offset
+    case["series_offset"] = draw(st.integers(-40, 400)) / 4.0
+    # all images refer to one reference date chosen by the user (start of the experiment),
+    # given in minutes before BASE_DATE; None: every image refers to its own date (the default)
+    case["refmin"] = draw(st.sampled_from([None, None, -3, 0, 7, 600, 43200]))
     # data types of the n images: all the one of the spec, or drawn per image.  Every pair of
     # STACK_DTYPES has a common numpy type that holds both exactly (uint8 < uint16 < float32 <
     # float64 on these payloads: integers < 2**16, multiples of 1/8 in [-4, 4)), so "slicing
@@ -243,9 +289,12 @@ def gen_stack(tier):
 # building blocks
 # ---------------------------------------------------------------------------------------
 
-def _build(spec, cls, extra=None):
+def _build(spec, cls, extra=None, opts=None):
+    """-> (image, private copy of its array).  `opts`: see _draw_root_opts (absent in cases
+    recorded before they existed: RGB, default reference date)."""
     arr = gens.payload_array(gens.full_shape(spec), spec["dtype"], spec["pseed"], True)
     kw = gens.image_kwargs(spec)
+    kw.update(_root_extra(opts))
     if extra:
         kw.update(extra)
     if cls == "ScalarImage":
@@ -254,7 +303,7 @@ def _build(spec, cls, extra=None):
     if cls == "OpticalImage":
         kw.pop("scalar", None)
         kw.pop("space_dim", None)
-        return darsia.OpticalImage(arr, color_space="RGB", **kw), arr.copy()
+        return darsia.OpticalImage(arr, color_space=(opts or {}).get("cspace", "RGB"), **kw), arr.copy()
     return darsia.Image(arr, **kw), arr.copy()
 
 
@@ -318,6 +367,17 @@ def _box_from_points(pts, shape):
     return lo, hi
 
 
+def _corners_spread(pts):
+    """No two of the points are opposite corners of their bounding box."""
+    a = np.asarray(pts, dtype=int)
+    lo, hi = a.min(axis=0), a.max(axis=0)
+    for i in range(len(a)):
+        for j in range(i + 1, len(a)):
+            if np.all(((a[i] == lo) & (a[j] == hi)) | ((a[i] == hi) & (a[j] == lo))):
+                return False
+    return True
+
+
 def _physical_points(model, pts, frac):
     """Physical coordinates of interior points of the given voxels of the *current* child,
     computed through the root reference map (never through the code under test)."""
@@ -359,6 +419,8 @@ def _apply(img, step, model, tags=None):
         a = np.asarray(step["pts"])
         if a.min() < 0 or any(a[:, d].max() > model.shape[d] for d in range(model.dim)):
             model.classes.add("roi-partly-outside")
+        if _corners_spread(step["pts"]):
+            model.classes.add("corners-spread")
         if op == "voxels":
             child = img.subregion(darsia.VoxelArray(np.asarray(step["pts"], dtype=int)))
         else:
@@ -397,7 +459,7 @@ def _kind(kind, model):
 
 def _run_program(case, visit, strict=False):
     spec = case["img"]
-    root, root_arr = _build(spec, case["cls"])
+    root, root_arr = _build(spec, case["cls"], opts=case.get("opts"))
     model = Model(spec, root)
     cur = root
     n = 0
@@ -433,8 +495,15 @@ def _outcome(case, model, evals):
     labels += sorted(model.classes)
     if model.row_offset:
         labels.append("row-offset")
+    opts = case.get("opts") or {}
+    labels.append(f"dtype-{spec['dtype']}")
+    if opts.get("refmin") is not None:
+        labels.append("refdate-user")
+    if case["cls"] == "OpticalImage":
+        labels.append(f"cspace-{opts.get('cspace', 'RGB')}")
     key = [spec["dim"], spec["shape"], spec["dimensions"], spec["origin"], spec["payload"],
-           spec["ncomp"], spec["series"], spec["nt"], spec["time"], steps]
+           spec["ncomp"], spec["series"], spec["nt"], spec["time"], steps, spec["dtype"],
+           sorted(opts.items())]
     return Outcome(nontrivial, key, tuple(labels), evals=max(1, evals))
 
 
@@ -529,7 +598,7 @@ def check_time_meta(case):
 
     def visit(child, model, root_arr, k, step):
         if not root_ref:
-            root0, _ = _build(case["img"], case["cls"])
+            root0, _ = _build(case["img"], case["cls"], opts=case.get("opts"))
             root_ref["reference_date"] = root0.reference_date
             root_ref["times_from_dates"] = case["img"].get("time") == "date"
         t = _tags(case, model, step)
@@ -576,6 +645,12 @@ def check_time_meta(case):
             raise Violation("space-dim", f"{where}: space_dim={child.space_dim} indexing={child.indexing}", t)
         if type(child).__name__ != case["cls"]:
             raise Violation("class", f"{where}: a {case['cls']} became a {type(child).__name__}", t)
+        # what the three channels of an optical image mean is part of the payload layout
+        if case["cls"] == "OpticalImage":
+            want_cs = (case.get("opts") or {}).get("cspace", "RGB")
+            if child.color_space != want_cs:
+                raise Violation("color-space", f"{where}: the sub-image of a {want_cs} image has "
+                                f"color_space {child.color_space!r}", t)
         return 1
 
     return _run_program(case, visit)
@@ -588,7 +663,7 @@ def check_time_meta(case):
 
 def check_three_forms(case):
     spec = case["img"]
-    root, root_arr = _build(spec, case["cls"])
+    root, root_arr = _build(spec, case["cls"], opts=case.get("opts"))
     model = Model(spec, root)
     cur = root
     step = {"op": "forms"}
@@ -600,6 +675,8 @@ def check_three_forms(case):
     lo, hi = _box_from_points(case["pts"], model.shape)
     if pts.min() < 0 or any(pts[:, d].max() > model.shape[d] for d in range(model.dim)):
         model.classes.add("roi-partly-outside")
+    if _corners_spread(case["pts"]):
+        model.classes.add("corners-spread")
 
     # converting the physical corners to voxel indices gives the voxels they were drawn in
     vox = cur.coordinatesystem.voxel(darsia.CoordinateArray(x))
@@ -619,15 +696,25 @@ def check_three_forms(case):
             raise Violation("forms-data", f"subregion({name}) has shape {im.img.shape}; the box "
                             f"{lo}..{hi} of the parent has shape {want.shape}"
                             + ("" if im.img.shape != want.shape else " (values differ)"), t)
-    sa = gens.snapshot(a)
+    # the three children agree in everything that is not a computed float (time stamps, dates,
+    # flags, name, ...) exactly; origin and dimensions are compared with the independent
+    # reference to rounding (how a form arrives at them is the implementation's choice)
+    def discrete(im):
+        snap = gens.snapshot(im)
+        for k in ("origin", "dimensions"):
+            snap["meta"].pop(k, None)
+        return snap
+
+    sa = discrete(a)
     for name, im in (("VoxelArray", b), ("slices", c)):
-        ok, why = gens.snapshot_equal(sa, gens.snapshot(im))
+        ok, why = gens.snapshot_equal(sa, discrete(im))
         if not ok:
             raise Violation("forms-meta", f"subregion(CoordinateArray) and subregion({name}) "
                             f"differ: {why}", t)
-    _check_placement(a, model, 0, step, t)
+    for name, im in (("CoordinateArray", a), ("VoxelArray", b), ("slices", c)):
+        _check_placement(im, model, 0, {"op": f"forms/{name}"}, t)
     steps = ([case["pre"]] if case["pre"] else []) + [{"op": "forms", "pts": case["pts"], "frac": case["frac"]}]
-    return _outcome({"img": spec, "cls": case["cls"], "steps": steps}, model, 3)
+    return _outcome({"img": spec, "cls": case["cls"], "steps": steps, "opts": case.get("opts")}, model, 3)
 
 
 # ---------------------------------------------------------------------------------------
@@ -648,6 +735,8 @@ def _stack_images(case):
         if case["tclass"] in ("date", "both-offset"):
             extra["date"] = d
             dates.append(d)
+            if case.get("refmin") is not None:
+                extra["reference_date"] = gens.BASE_DATE - _dt.timedelta(minutes=case["refmin"])
         else:
             dates.append(None)
         if case["tclass"] in ("time-offset", "both-offset"):
@@ -678,14 +767,27 @@ def check_stack_roundtrip(case):
     # offsets are documented as "float or int"
     offsets = [None] + [int(o) if case["int_offsets"] else o for o in case["offsets"][1:]]
     with_offsets = tclass in ("time-offset", "both-offset")
+    # the reference date all inputs share (None: each input refers to its own date, the series
+    # then to the date of its first frame)
+    refdate = None
+    if case.get("refmin") is not None and tclass in ("date", "both-offset"):
+        refdate = gens.BASE_DATE - _dt.timedelta(minutes=case["refmin"])
 
     # expected relative times of the assembled series
     if with_offsets:
         want_time = [times[0]] + [times[i] + offsets[i] for i in range(1, n)]
     elif tclass == "date":
-        want_time = [(dates[i] - dates[0]).total_seconds() for i in range(n)]
+        # with a shared reference date these are the relative times the inputs themselves carry:
+        # "slicing the series returns the originals with their dates and relative times"
+        want_time = [(dates[i] - (refdate or dates[0])).total_seconds() for i in range(n)]
+        if refdate is not None:
+            for i in range(n):
+                if not _same_time(imgs[i].time, want_time[i]):
+                    raise Violation("input-time", f"input {i} built with date {dates[i]!r} and "
+                                    f"reference_date {refdate!r} has time {imgs[i].time!r}", t)
     else:
         want_time = [None] * n
+    want_ref = refdate if refdate is not None else dates[0]
     # numpy's common type of the inputs holds every input exactly (see STACK_DTYPES): the values
     # of want_arr are the values of the inputs
     want_arr = np.stack(arrs, axis=dim)
@@ -693,7 +795,15 @@ def check_stack_roundtrip(case):
         assert np.array_equal(want_arr.take(i, axis=dim), arrs[i])
     dt_note = f" (input dtypes {dtypes})" if mixed else ""
 
-    def check_series(s, name, check_time):
+    def check_reference(im, name):
+        # the relative times derive from the dates (tclass date): time = date - reference_date,
+        # and neither assembling nor slicing moves the reference date
+        if tclass == "date" and im.reference_date != want_ref:
+            raise Violation("stack-reference-date", f"{name}: reference_date "
+                            f"{im.reference_date!r}, the inputs' is {want_ref!r}", t)
+
+    def check_series(s, name, check_time, want_time=want_time):
+        check_reference(s, name)
         if not bool(s.series) or int(s.time_num) != n or int(s.time_dim) != 1:
             raise Violation("stack-series", f"{name}: series={s.series} time_num={s.time_num}", t)
         if s.img.shape != want_arr.shape or not np.array_equal(s.img, want_arr):
@@ -720,9 +830,10 @@ def check_stack_roundtrip(case):
             raise Violation("stack-placement", f"{name}: coordinates of the series differ from "
                             "those of the inputs", t)
 
-    def check_slices(s, name, check_time):
+    def check_slices(s, name, check_time, want_time=want_time):
         for i in range(n):
             sl = s.time_slice(i)
+            check_reference(sl, f"{name}.time_slice({i})")
             if bool(sl.series):
                 raise Violation("stack-slice-series", f"{name}.time_slice({i}) is a series", t)
             if sl.img.shape != arrs[i].shape or not np.array_equal(sl.img, arrs[i]):
@@ -736,6 +847,7 @@ def check_stack_roundtrip(case):
                                 f"expected {want_time[i]!r}", t)
         rng = _sl(case["tint"])
         iv = s.time_interval(rng)
+        check_reference(iv, f"{name}.time_interval({case['tint']})")
         sel = list(range(n))[rng]
         if iv.img.shape != want_arr.take(sel, axis=dim).shape or not np.array_equal(
                 iv.img, want_arr.take(sel, axis=dim)):
@@ -748,19 +860,33 @@ def check_stack_roundtrip(case):
             raise Violation("stack-interval-time", f"{name}.time_interval({case['tint']}).time = "
                             f"{iv.time!r}, expected {[want_time[i] for i in sel]!r}", t)
 
+    # "returns the originals": the images handed over (the appended ones; for stack, which
+    # creates a new image, all of them) are the originals themselves in (a) and (b) and still
+    # are what they were afterwards - data, type, flags, dates, relative times, geometry
+    before = [gens.snapshot(im) for im in imgs]
+
+    def check_inputs(name, first):
+        for i in range(first, n):
+            ok, why = gens.snapshot_equal(before[i], gens.snapshot(imgs[i]))
+            if not ok or bool(imgs[i].series):
+                raise Violation("stack-input-changed", f"{name}: input {i} is not what it was "
+                                f"before it was handed over ({why or 'series flag'})", t)
+
     # (a) sequential append, with offsets where the class has relative times
     seq = imgs[0].copy()
     for i in range(1, n):
         if with_offsets:
-            seq.append(imgs[i].copy(), offset=offsets[i])
+            seq.append(imgs[i], offset=offsets[i])
         else:
-            seq.append(imgs[i].copy())
+            seq.append(imgs[i])
+    check_inputs("append", 1)
     check_series(seq, "append", True)
     check_slices(seq, "append", True)
 
-    # (b) darsia.stack on copies (it has no offsets: relative times without dates are not kept)
-    stk = darsia.stack([im.copy() for im in imgs])
+    # (b) darsia.stack (it has no offsets: relative times without dates are not kept)
+    stk = darsia.stack(list(imgs))
     time_ok = not with_offsets
+    check_inputs("stack", 0)
     check_series(stk, "stack", time_ok)
     check_slices(stk, "stack", time_ok)
 
@@ -772,11 +898,37 @@ def check_stack_roundtrip(case):
     check_series(left, "append(stack, stack)", time_ok)
     check_slices(left, "append(stack, stack)", time_ok)
 
-    # the inputs were passed as copies and must be untouched
+    # (d) a series (or single image) appended to a series (or single image) with an offset:
+    # every frame of the appended image enters with its own relative time plus the offset, as a
+    # single appended image does
+    if with_offsets:
+        o = case.get("series_offset", 2.5)
+        o = int(o) if case["int_offsets"] else o
+        left = imgs[0].copy()
+        for i in range(1, g):
+            left.append(imgs[i].copy(), offset=offsets[i])
+        right = imgs[g].copy()
+        for i in range(g + 1, n):
+            right.append(imgs[i].copy(), offset=offsets[i])
+        right_time = [times[g]] + [times[i] + offsets[i] for i in range(g + 1, n)]
+        right_seen = right.time if isinstance(right.time, list) else [right.time]
+        left.append(right, offset=o)
+        joined = [times[0]] + [times[i] + offsets[i] for i in range(1, g)] + [x + o for x in right_time]
+        name = f"append({'series' if g > 1 else 'image'}, {'series' if n - g > 1 else 'image'}, offset={o})"
+        check_series(left, name, True, joined)
+        check_slices(left, name, True, joined)
+        # the appended image is an argument: its own relative times are not shifted
+        now = right.time if isinstance(right.time, list) else [right.time]
+        if not _same_time(now, right_seen) or not _same_time(now, right_time):
+            raise Violation("stack-input-changed", f"{name}: the relative times of the appended "
+                            f"image were {right_seen!r} and are {now!r} afterwards (expected "
+                            f"{right_time!r})", t)
+
+    # slicing the assembled series did not reach back into the inputs either
+    check_inputs("after slicing the series", 0)
     for i in range(n):
-        if not np.array_equal(imgs[i].img, arrs[i]) or bool(imgs[i].series) \
-                or imgs[i].img.dtype != arrs[i].dtype:
-            raise Violation("stack-input-changed", f"input {i} changed although a copy was passed", t)
+        if not np.array_equal(imgs[i].img, arrs[i]) or imgs[i].img.dtype != arrs[i].dtype:
+            raise Violation("stack-input-changed", f"input {i} no longer holds its data", t)
 
     labels = (f"dim{dim}", f"n{n}", f"tclass-{tclass}", f"payload-{spec['payload']}",
               f"cls-{case['cls']}", "offsets-int" if case["int_offsets"] else "offsets-float",
@@ -785,18 +937,25 @@ def check_stack_roundtrip(case):
     if widening:
         labels += ("dtypes-widening",)
     labels += tuple(sorted(_tsel_classes(case["tint"], n)))
+    if refdate is not None:
+        labels += ("refdate-common", f"refdate-common-{tclass}")
+    if with_offsets:
+        labels += (f"offset-append-{'series' if g > 1 else 'image'}+{'series' if n - g > 1 else 'image'}",)
     key = [dim, spec["shape"], spec["payload"], spec["ncomp"], n, tclass, case["minutes"],
-           case["times"], case["offsets"], case["split"], case["tint"], dtypes]
-    return Outcome(True, key, labels, evals=3 * (n + 2))
+           case["times"], case["offsets"], case["split"], case["tint"], dtypes,
+           case.get("refmin"), case.get("series_offset")]
+    return Outcome(True, key, labels, evals=(4 if with_offsets else 3) * (n + 2))
 
 
 # ---------------------------------------------------------------------------------------
 
 _RULE = ("Hypothesis draws a root image (2-D extents <= 8, 3-D extents <= 5, scalar / vector, single / "
          "series with <= 5 times, dates / relative times / both / neither, default or user origin, "
-         "Image / ScalarImage / OpticalImage) and a program of 1-4 extraction steps (subregion by "
+         "default or user reference date (refdate-user), float64 / float32 / uint8 / bool data, "
+         "Image / ScalarImage / OpticalImage in RGB / BGR / HSV) and a program of 1-4 extraction steps (subregion by "
          "slices with open ends, border-touching and - labelled stop-beyond - stops past the border; "
-         "by voxel corner points and by physical corner points, both possibly partly outside; "
+         "by voxel corner points and by physical corner points, both possibly partly outside, 2-4 points "
+         "with an opposite-corner pair among them or - corners-spread - the extremes spread over >= 3 points; "
          "time_slice; time_interval over any non-empty slice of the frames: contiguous, bounds "
          "counted from the end, strided (step 2/3), reversed - labelled tint-*) generated against the tracked shape so that every step is "
          "non-empty; after EVERY step the child is compared with the offset-tracking model; "
@@ -822,6 +981,21 @@ PROP = Prop(
         "generated payloads; for mixed inputs only the values of the series and of its slices are "
         "asserted, not which wider type it takes",
         "empty selections are not generated; spatial ranges have no negative indices and no steps",
+        "an OpticalImage child has the colour space of its parent (OpticalImage.metadata: 'can be used "
+        "to init a new optical image with same specs'); roots are built in RGB, BGR or HSV",
+        "the reference date (default: the image's first date; in a sixth of the programs and a third of "
+        "the stack cases one chosen by the user, before / at / after the first frame) is kept by every "
+        "extraction and by append / stack; where relative times derive from dates they are date - "
+        "reference_date, so a series assembled from images that share a reference date returns, sliced "
+        "again, exactly the relative times the inputs carry",
+        "append(series_or_image, offset) on a series or a single image: every frame of the appended "
+        "image enters with its own relative time plus the offset (the documented single-image behaviour "
+        "applied frame by frame) and the appended image itself keeps its times",
+        "append does not alter the image it appends and stack none of its inputs (the originals are "
+        "handed over in routes (a) and (b)); a box given by points is their bounding box whichever "
+        "points carry the extremes",
+        "the three call forms of one box agree exactly in data and in all metadata that is not a "
+        "computed float; origin and dimensions of each are compared with the reference map to rounding",
     ],
     subs=[
         Sub("data_block", check_data_block, gen=gen_programs,
